@@ -374,10 +374,27 @@ def r15(rep: Report, ctx: Ctx) -> None:
         src = defs.resolve_deep(a) if a is not None else None
         names = {call_name(c) for c in ast.walk(src)
                  if isinstance(c, ast.Call)} if src is not None else set()
-        rep.ob("R1.5", f"{callee}(<- {source})", source in names, fi=entry,
-               node=calls[0],
-               detail=f"argument '{unparse(a)}' derives from "
-                      f"{sorted(n for n in names if n)}")
+        ok = source in names
+        how = f"argument '{unparse(a)}' derives from " \
+              f"{sorted(n for n in names if n)}"
+        if not ok and source == "detect_loops" and isinstance(a, ast.Name):
+            # detect_loops rewrites its argument IN PLACE and returns that
+            # same object (C07 R7.3): after the call, the name that was
+            # passed in is an alias of the result
+            dl = [c for c in ast.walk(entry.node) if isinstance(c, ast.Call)
+                  and call_name(c) == "detect_loops"]
+            cfg = ctx.cfg(entry)
+            if len(dl) == 1 and dl[0].args and isinstance(
+                    dl[0].args[0], ast.Name) and dl[0].args[0].id == a.id \
+                    and cfg.dominates(cfg.container(dl[0]),
+                                      cfg.container(calls[0])) \
+                    and cfg.container(dl[0]) != cfg.container(calls[0]) \
+                    and len(ctx.reach(entry).at(calls[0], a.id)) == 1:
+                ok = True
+                how = f"argument '{a.id}' is the graph detect_loops " \
+                      "rewrote in place (alias of its result)"
+        rep.ob("R1.5", f"{callee}(<- {source})", ok, fi=entry,
+               node=calls[0], detail=how)
     ret = [r for r in entry.node.body if isinstance(r, ast.Return)]
     rv = ctx.reach(entry).resolve(ret[0].value, at=ret[0]) if len(ret) == 1 \
         and ret[0].value is not None else None
@@ -815,7 +832,7 @@ def r116(rep: Report, ctx: Ctx) -> None:
     from .walkspec import TABLE
     rep.rule("R1.16", "gate tree -> node logic: one arm per kind of tree "
              "node, every child visited, leaves attached in the direction "
-             "asked for", 9)
+             "asked for", 8)
     check_table(rep, ctx, "R1.16", TABLE,
                 ["Node._load_logic_into_logic_list"])
     rep.rule("R1.17", "a logic block starts as a faithful, private mirror of "
